@@ -416,3 +416,210 @@ package rcmgr
 //@ ensures forall r *resources :: (r.memory == old(r.memory) && r.nstreamsIn == old(r.nstreamsIn) && r.nstreamsOut == old(r.nstreamsOut) && r.nconnsIn == old(r.nconnsIn) && r.nconnsOut == old(r.nconnsOut) && r.nfd == old(r.nfd)) || r == &s.rc || (exists j int :: 0 <= j && j < len(s.edges) && r == &s.edges[j].rc)
 //@ ensures allNonneg()
 //@ modifies resources.memory, resources.nstreamsIn, resources.nstreamsOut, resources.nconnsIn, resources.nconnsOut, resources.nfd, resourceScope.refCnt, s.done
+
+// ---------------------------------------------------------------------------
+// C03 level 3: re-parenting. The scope getters are trusted (they allocate and index maps); what they
+// promise is listed in the evidence under trusted_base.
+
+//@ ghost kind int
+//@ pred same6(r *resources) = r.memory == old(r.memory) && r.nstreamsIn == old(r.nstreamsIn) && r.nstreamsOut == old(r.nstreamsOut) &&
+//@     r.nconnsIn == old(r.nconnsIn) && r.nconnsOut == old(r.nconnsOut) && r.nfd == old(r.nfd)
+//@ pred plusOf(e *resourceScope, s *resourceScope) = e.rc.memory == old(e.rc.memory) + old(s.rc.memory) &&
+//@     e.rc.nstreamsIn == old(e.rc.nstreamsIn) + old(s.rc.nstreamsIn) && e.rc.nstreamsOut == old(e.rc.nstreamsOut) + old(s.rc.nstreamsOut) &&
+//@     e.rc.nconnsIn == old(e.rc.nconnsIn) + old(s.rc.nconnsIn) && e.rc.nconnsOut == old(e.rc.nconnsOut) + old(s.rc.nconnsOut) &&
+//@     e.rc.nfd == old(e.rc.nfd) + old(s.rc.nfd)
+//@ pred eqOf(e *resourceScope, s *resourceScope) = e.rc.memory == old(s.rc.memory) &&
+//@     e.rc.nstreamsIn == old(s.rc.nstreamsIn) && e.rc.nstreamsOut == old(s.rc.nstreamsOut) &&
+//@     e.rc.nconnsIn == old(s.rc.nconnsIn) && e.rc.nconnsOut == old(s.rc.nconnsOut) && e.rc.nfd == old(s.rc.nfd)
+//@ pred minusOf(e *resourceScope, s *resourceScope) = e.rc.memory == max(0, old(e.rc.memory) - old(s.rc.memory)) &&
+//@     e.rc.nstreamsIn == max(0, old(e.rc.nstreamsIn) - old(s.rc.nstreamsIn)) && e.rc.nstreamsOut == max(0, old(e.rc.nstreamsOut) - old(s.rc.nstreamsOut)) &&
+//@     e.rc.nconnsIn == max(0, old(e.rc.nconnsIn) - old(s.rc.nconnsIn)) && e.rc.nconnsOut == max(0, old(e.rc.nconnsOut) - old(s.rc.nconnsOut)) &&
+//@     e.rc.nfd == max(0, old(e.rc.nfd) - old(s.rc.nfd))
+//@ pred zero6(r *resources) = r.memory == 0 && r.nstreamsIn == 0 && r.nstreamsOut == 0 && r.nconnsIn == 0 && r.nconnsOut == 0 && r.nfd == 0
+//@ pred mgrOK(r *resourceManager) = r != nil && r.system != nil && r.transient != nil &&
+//@     r.system.resourceScope != nil && r.transient.resourceScope != nil &&
+//@     ghost.kind(r.system.resourceScope) == 0 && ghost.kind(r.transient.resourceScope) == 1 &&
+//@     !r.system.resourceScope.done && !r.transient.resourceScope.done
+//@ pred charged(e *resourceScope, s *resourceScope) = !e.done && ((!fresh(e) ==> plusOf(e, s)) && (fresh(e) ==> eqOf(e, s)))
+
+//@ func (r *resourceManager) getProtocolScope
+//@ prop C03
+//@ trusted
+//@ requires allNonneg()
+//@ ensures result != nil && result.resourceScope != nil && ghost.kind(result.resourceScope) == 3 && result.resourceScope.owner == nil
+//@ ensures !fresh(result.resourceScope) ==> result.resourceScope.refCnt == old(result.resourceScope.refCnt) + 1 && same6(&result.resourceScope.rc)
+//@ ensures fresh(result.resourceScope) ==> result.resourceScope.refCnt == 1 && zero6(&result.resourceScope.rc) && !result.resourceScope.done
+//@ ensures forall x *resourceScope :: !fresh(x) && x != result.resourceScope ==> x.refCnt == old(x.refCnt)
+//@ ensures forall x *resourceScope :: !fresh(x) ==> same6(&x.rc) && x.done == old(x.done)
+//@ ensures forall x *resourceScope :: fresh(x) ==> zero6(&x.rc) && !x.done
+//@ ensures allNonneg()
+//@ modifies resourceScope.refCnt, resources.memory, resources.nstreamsIn, resources.nstreamsOut, resources.nconnsIn, resources.nconnsOut, resources.nfd, resourceScope.done, r.proto
+
+//@ func (s *protocolScope) getPeerScope
+//@ prop C03
+//@ trusted
+//@ requires allNonneg()
+//@ ensures result != nil && ghost.kind(result) == 6 && result.owner == nil
+//@ ensures !fresh(result) ==> result.refCnt == old(result.refCnt) + 1 && same6(&result.rc)
+//@ ensures fresh(result) ==> result.refCnt == 1 && zero6(&result.rc) && !result.done
+//@ ensures forall x *resourceScope :: !fresh(x) && x != result ==> x.refCnt == old(x.refCnt)
+//@ ensures forall x *resourceScope :: !fresh(x) ==> same6(&x.rc) && x.done == old(x.done)
+//@ ensures forall x *resourceScope :: fresh(x) ==> zero6(&x.rc) && !x.done
+//@ ensures allNonneg()
+//@ modifies resourceScope.refCnt, resources.memory, resources.nstreamsIn, resources.nstreamsOut, resources.nconnsIn, resources.nconnsOut, resources.nfd, resourceScope.done, s.peers
+
+//@ func (s *streamScope) SetProtocol
+//@ prop C03
+//@ requires s.resourceScope != nil && s.peer != nil && s.peer.resourceScope != nil && mgrOK(s.rcmgr) && allNonneg()
+//@ requires ghost.kind(s.resourceScope) == 5 && ghost.kind(s.peer.resourceScope) == 2
+//@ ensures result == nil ==> s.proto != nil && s.peerProtoScope != nil
+//@ ensures result == nil ==> charged(s.proto.resourceScope, s.resourceScope)
+//@ ensures result == nil ==> charged(s.peerProtoScope, s.resourceScope)
+//@ ensures result == nil ==> minusOf(s.rcmgr.transient.resourceScope, s.resourceScope)
+//@ ensures result == nil ==> s.rcmgr.transient.resourceScope.refCnt == old(s.rcmgr.transient.resourceScope.refCnt) - 1
+//@ ensures result == nil ==> len(s.resourceScope.edges) == 4 && s.resourceScope.edges[0] == s.peer.resourceScope &&
+//@         s.resourceScope.edges[1] == s.peerProtoScope && s.resourceScope.edges[2] == s.proto.resourceScope &&
+//@         s.resourceScope.edges[3] == s.rcmgr.system.resourceScope
+//@ ensures result == nil ==> forall x *resourceScope :: !fresh(x) && x != s.proto.resourceScope && x != s.peerProtoScope &&
+//@         x != s.rcmgr.transient.resourceScope ==> same6(&x.rc)
+//@ ensures result != nil ==> s.proto == old(s.proto) && (forall x *resourceScope :: !fresh(x) ==> same6(&x.rc) && x.refCnt == old(x.refCnt))
+//@ ensures result != nil ==> len(s.resourceScope.edges) == len(old(s.resourceScope.edges)) &&
+//@         (forall i int :: 0 <= i && i < len(s.resourceScope.edges) ==> s.resourceScope.edges[i] == old(s.resourceScope.edges[i]))
+//@ ensures same6(&s.resourceScope.rc)
+//@ modifies resourceScope.refCnt, resources.memory, resources.nstreamsIn, resources.nstreamsOut, resources.nconnsIn, resources.nconnsOut, resources.nfd,
+//@          resourceScope.done, s.rcmgr.proto, protocolScope.peers, s.proto, s.peerProtoScope, s.resourceScope.edges
+
+//@ func (r *resourceManager) getServiceScope
+//@ prop C03
+//@ trusted
+//@ requires allNonneg()
+//@ ensures result != nil && result.resourceScope != nil && ghost.kind(result.resourceScope) == 4 && result.resourceScope.owner == nil
+//@ ensures !fresh(result.resourceScope) ==> result.resourceScope.refCnt == old(result.resourceScope.refCnt) + 1 && same6(&result.resourceScope.rc)
+//@ ensures fresh(result.resourceScope) ==> result.resourceScope.refCnt == 1 && zero6(&result.resourceScope.rc) && !result.resourceScope.done
+//@ ensures forall x *resourceScope :: !fresh(x) && x != result.resourceScope ==> x.refCnt == old(x.refCnt)
+//@ ensures forall x *resourceScope :: !fresh(x) ==> same6(&x.rc) && x.done == old(x.done)
+//@ ensures forall x *resourceScope :: fresh(x) ==> zero6(&x.rc) && !x.done
+//@ ensures allNonneg()
+//@ modifies resourceScope.refCnt, resources.memory, resources.nstreamsIn, resources.nstreamsOut, resources.nconnsIn, resources.nconnsOut, resources.nfd, resourceScope.done, r.svc
+
+//@ func (s *serviceScope) getPeerScope
+//@ prop C03
+//@ trusted
+//@ requires allNonneg()
+//@ ensures result != nil && ghost.kind(result) == 7 && result.owner == nil
+//@ ensures !fresh(result) ==> result.refCnt == old(result.refCnt) + 1 && same6(&result.rc)
+//@ ensures fresh(result) ==> result.refCnt == 1 && zero6(&result.rc) && !result.done
+//@ ensures forall x *resourceScope :: !fresh(x) && x != result ==> x.refCnt == old(x.refCnt)
+//@ ensures forall x *resourceScope :: !fresh(x) ==> same6(&x.rc) && x.done == old(x.done)
+//@ ensures forall x *resourceScope :: fresh(x) ==> zero6(&x.rc) && !x.done
+//@ ensures allNonneg()
+//@ modifies resourceScope.refCnt, resources.memory, resources.nstreamsIn, resources.nstreamsOut, resources.nconnsIn, resources.nconnsOut, resources.nfd, resourceScope.done, s.peers
+
+
+//@ func (r *resourceManager) getPeerScope
+//@ prop C03
+//@ trusted
+//@ requires allNonneg()
+//@ ensures result != nil && result.resourceScope != nil && ghost.kind(result.resourceScope) == 2 && result.resourceScope.owner == nil
+//@ ensures !fresh(result.resourceScope) ==> result.resourceScope.refCnt == old(result.resourceScope.refCnt) + 1 && same6(&result.resourceScope.rc)
+//@ ensures fresh(result.resourceScope) ==> result.resourceScope.refCnt == 1 && zero6(&result.resourceScope.rc) && !result.resourceScope.done
+//@ ensures forall x *resourceScope :: !fresh(x) && x != result.resourceScope ==> x.refCnt == old(x.refCnt)
+//@ ensures forall x *resourceScope :: !fresh(x) ==> same6(&x.rc) && x.done == old(x.done)
+//@ ensures forall x *resourceScope :: fresh(x) ==> zero6(&x.rc) && !x.done
+//@ ensures allNonneg()
+//@ modifies resourceScope.refCnt, resources.memory, resources.nstreamsIn, resources.nstreamsOut, resources.nconnsIn, resources.nconnsOut, resources.nfd, resourceScope.done, r.peer
+
+
+//@ func (s *streamScope) SetService
+//@ prop C03
+//@ requires s.resourceScope != nil && s.peer != nil && s.peer.resourceScope != nil && mgrOK(s.rcmgr) && allNonneg()
+//@ requires ghost.kind(s.resourceScope) == 5 && ghost.kind(s.peer.resourceScope) == 2
+//@ requires s.proto != nil ==> s.proto.resourceScope != nil && ghost.kind(s.proto.resourceScope) == 3
+//@ ensures result == nil ==> s.svc != nil && s.peerSvcScope != nil && old(s.proto) != nil
+//@ ensures result == nil ==> charged(s.svc.resourceScope, s.resourceScope)
+//@ ensures result == nil ==> charged(s.peerSvcScope, s.resourceScope)
+//@ ensures result == nil ==> len(s.resourceScope.edges) == 6 && s.resourceScope.edges[0] == s.peer.resourceScope &&
+//@         s.resourceScope.edges[1] == s.peerProtoScope && s.resourceScope.edges[2] == s.peerSvcScope &&
+//@         s.resourceScope.edges[3] == s.proto.resourceScope && s.resourceScope.edges[4] == s.svc.resourceScope &&
+//@         s.resourceScope.edges[5] == s.rcmgr.system.resourceScope
+//@ ensures result == nil ==> forall x *resourceScope :: !fresh(x) && x != s.svc.resourceScope && x != s.peerSvcScope ==> same6(&x.rc)
+//@ ensures result != nil ==> s.svc == old(s.svc) && (forall x *resourceScope :: !fresh(x) ==> same6(&x.rc) && x.refCnt == old(x.refCnt))
+//@ ensures result != nil ==> len(s.resourceScope.edges) == len(old(s.resourceScope.edges)) &&
+//@         (forall i int :: 0 <= i && i < len(s.resourceScope.edges) ==> s.resourceScope.edges[i] == old(s.resourceScope.edges[i]))
+//@ ensures same6(&s.resourceScope.rc)
+//@ modifies resourceScope.refCnt, resources.memory, resources.nstreamsIn, resources.nstreamsOut, resources.nconnsIn, resources.nconnsOut, resources.nfd,
+//@          resourceScope.done, s.rcmgr.svc, serviceScope.peers, s.svc, s.peerSvcScope, s.resourceScope.edges
+
+//@ pred released(e *resourceScope, s *resourceScope) = e.refCnt == old(e.refCnt) - 1 &&
+//@     (!e.done ==> minusOf(e, s)) && (e.done ==> same6(&e.rc))
+//@ pred stdDistinct(s *connectionScope) = forall j int :: 0 <= j && j < len(s.resourceScope.edges) ==>
+//@     s.resourceScope.edges[j] != s.rcmgr.system.resourceScope && s.resourceScope.edges[j] != s.rcmgr.transient.resourceScope
+
+//@ func (s *connectionScope) transferAllowedToStandard
+//@ prop C03
+//@ requires s.resourceScope != nil && mgrOK(s.rcmgr) && allNonneg() && edgesOK(s.resourceScope) && s.resourceScope.owner == nil
+//@ requires ghost.kind(s.resourceScope) == 8 && stdDistinct(s)
+//@ loop 0 invariant 0 <= idx0 && idx0 <= len(s.edges) && len(s.edges) == len(old(s.edges))
+//@ loop 0 invariant forall j int :: 0 <= j && j < len(s.edges) ==> s.edges[j] == old(s.edges[j])
+//@ loop 0 invariant stat.Memory == old(s.rc.memory) && stat.NumStreamsInbound == old(s.rc.nstreamsIn) && stat.NumStreamsOutbound == old(s.rc.nstreamsOut) &&
+//@         stat.NumConnsInbound == old(s.rc.nconnsIn) && stat.NumConnsOutbound == old(s.rc.nconnsOut) && stat.NumFD == old(s.rc.nfd)
+//@ loop 0 invariant forall j int :: 0 <= j && j < idx0 ==> released(s.edges[j], s.resourceScope)
+//@ loop 0 invariant forall j int :: idx0 <= j && j < len(s.edges) ==> s.edges[j].refCnt == old(s.edges[j].refCnt)
+//@ loop 0 invariant forall x *resourceScope :: (same6(&x.rc) && x.refCnt == old(x.refCnt)) || (exists j int :: 0 <= j && j < idx0 && x == s.edges[j])
+//@ loop 0 invariant allNonneg()
+//@ ensures forall j int :: 0 <= j && j < len(old(s.edges)) ==> released(old(s.edges[j]), s.resourceScope)
+//@ ensures err == nil ==> plusOf(s.rcmgr.system.resourceScope, s.resourceScope) && plusOf(s.rcmgr.transient.resourceScope, s.resourceScope) &&
+//@         s.rcmgr.system.resourceScope.refCnt == old(s.rcmgr.system.resourceScope.refCnt) + 1 &&
+//@         s.rcmgr.transient.resourceScope.refCnt == old(s.rcmgr.transient.resourceScope.refCnt) + 1
+//@ ensures err == nil ==> len(s.edges) == 2 && s.edges[0] == s.rcmgr.system.resourceScope && s.edges[1] == s.rcmgr.transient.resourceScope
+//@ ensures err != nil ==> len(s.edges) == 0 && same6(&s.rcmgr.system.resourceScope.rc) && same6(&s.rcmgr.transient.resourceScope.rc) &&
+//@         s.rcmgr.system.resourceScope.refCnt == old(s.rcmgr.system.resourceScope.refCnt) &&
+//@         s.rcmgr.transient.resourceScope.refCnt == old(s.rcmgr.transient.resourceScope.refCnt)
+//@ ensures forall x *resourceScope :: (same6(&x.rc) && x.refCnt == old(x.refCnt)) || x == s.rcmgr.system.resourceScope || x == s.rcmgr.transient.resourceScope ||
+//@         (exists j int :: 0 <= j && j < len(old(s.edges)) && x == old(s.edges[j]))
+//@ ensures allNonneg() && same6(&s.resourceScope.rc)
+//@ ensures forall x *resourceScope :: fresh(x) ==> zero6(&x.rc) && !x.done
+//@ modifies resourceScope.refCnt, resources.memory, resources.nstreamsIn, resources.nstreamsOut, resources.nconnsIn, resources.nconnsOut, resources.nfd,
+//@          s.resourceScope.edges
+
+//@ pred alOK(r *resourceManager) = r.allowlistedSystem != nil && r.allowlistedTransient != nil &&
+//@     r.allowlistedSystem.resourceScope != nil && r.allowlistedTransient.resourceScope != nil &&
+//@     ghost.kind(r.allowlistedSystem.resourceScope) == 9 && ghost.kind(r.allowlistedTransient.resourceScope) == 10 &&
+//@     !r.allowlistedSystem.resourceScope.done && !r.allowlistedTransient.resourceScope.done
+//@ pred edgesSame(s *resourceScope) = len(s.edges) == len(old(s.edges)) &&
+//@     (forall i int :: 0 <= i && i < len(s.edges) ==> s.edges[i] == old(s.edges[i]))
+
+//@ func (s *connectionScope) SetPeer
+//@ prop C03
+//@ opaque AllowedPeerAndMultiaddr
+//@ requires s.resourceScope != nil && mgrOK(s.rcmgr) && alOK(s.rcmgr) && allNonneg() && s.resourceScope.owner == nil
+//@ requires ghost.kind(s.resourceScope) == 8
+//@ requires s.isAllowlisted ==> edgesOK(s.resourceScope) && stdDistinct(s) &&
+//@          (forall j int :: 0 <= j && j < len(s.edges) ==> ghost.kind(s.edges[j]) >= 9)
+//@ ensures result == nil ==> s.peer != nil && old(s.peer) == nil && len(s.edges) == 2 && s.edges[0] == s.peer.resourceScope
+//@ ensures result == nil ==> !s.peer.resourceScope.done
+//@ ensures result == nil && !fresh(s.peer.resourceScope) ==> plusOf(s.peer.resourceScope, s.resourceScope)
+//@ ensures result == nil && fresh(s.peer.resourceScope) ==> eqOf(s.peer.resourceScope, s.resourceScope)
+//@ ensures result == nil && !old(s.isAllowlisted) ==> minusOf(s.rcmgr.transient.resourceScope, s.resourceScope) &&
+//@         s.edges[1] == s.rcmgr.system.resourceScope &&
+//@         s.rcmgr.transient.resourceScope.refCnt == old(s.rcmgr.transient.resourceScope.refCnt) - 1
+//@ ensures result == nil && old(s.isAllowlisted) && s.isAllowlisted ==> minusOf(s.rcmgr.allowlistedTransient.resourceScope, s.resourceScope) &&
+//@         s.edges[1] == s.rcmgr.allowlistedSystem.resourceScope
+//@ ensures result == nil && old(s.isAllowlisted) && !s.isAllowlisted ==> s.edges[1] == s.rcmgr.system.resourceScope
+//@ ensures result == nil && old(s.isAllowlisted) && !s.isAllowlisted ==> plusOf(s.rcmgr.system.resourceScope, s.resourceScope)
+//@ ensures result == nil && old(s.isAllowlisted) && !s.isAllowlisted ==> same6(&s.rcmgr.transient.resourceScope.rc)
+//@ ensures result == nil && old(s.isAllowlisted) && !s.isAllowlisted ==>
+//@         (forall j int :: 0 <= j && j < len(old(s.edges)) ==> old(s.edges[j]).refCnt == old(old(s.edges[j]).refCnt) - 1)
+//@ ensures result == nil && old(s.isAllowlisted) && !s.isAllowlisted ==>
+//@         (forall j int :: 0 <= j && j < len(old(s.edges)) ==> (!old(s.edges[j]).done ==> minusOf(old(s.edges[j]), s.resourceScope)))
+//@ ensures result == nil && old(s.isAllowlisted) && !s.isAllowlisted ==>
+//@         (forall j int :: 0 <= j && j < len(old(s.edges)) ==> (old(s.edges[j]).done ==> same6(&old(s.edges[j]).rc)))
+//@ ensures result != nil && (!old(s.isAllowlisted) || s.isAllowlisted) ==> s.peer == old(s.peer) && edgesSame(s.resourceScope) &&
+//@         (forall x *resourceScope :: !fresh(x) ==> same6(&x.rc) && x.refCnt == old(x.refCnt))
+//@ ensures result != nil && old(s.isAllowlisted) && !s.isAllowlisted ==> s.peer == nil &&
+//@         (forall j int :: 0 <= j && j < len(old(s.edges)) ==> released(old(s.edges[j]), s.resourceScope)) &&
+//@         (len(s.edges) == 0 || (len(s.edges) == 2 && s.edges[0] == s.rcmgr.system.resourceScope && s.edges[1] == s.rcmgr.transient.resourceScope &&
+//@            plusOf(s.rcmgr.system.resourceScope, s.resourceScope) && plusOf(s.rcmgr.transient.resourceScope, s.resourceScope)))
+//@ ensures same6(&s.resourceScope.rc)
+//@ modifies resourceScope.refCnt, resources.memory, resources.nstreamsIn, resources.nstreamsOut, resources.nconnsIn, resources.nconnsOut, resources.nfd,
+//@          resourceScope.done, s.rcmgr.peer, s.peer, s.isAllowlisted, s.resourceScope.edges
